@@ -392,6 +392,9 @@ class Engine:
             if z3.is_app(x):
                 if x.decl().kind() == z3.Z3_OP_SEQ_NTH and x.num_args() == 2:
                     out.append(x.arg(1))
+                elif x.decl().kind() == z3.Z3_OP_SELECT and x.num_args() == 2 and \
+                        x.arg(1).sort() == z3.IntSort():
+                    out.append(x.arg(1))
                 stack.extend(x.children())
         self._fc_memo[key] = (out, t)
         return out
@@ -441,11 +444,19 @@ class Engine:
         # E-matching over seq.nth, which neither back end does)
         sk = []
         goal = self.skolemize(goal, sk)
+        # library-axiom instances: only those that speak about this path's symbols
+        have = set()
+        for t in prem + [goal]:
+            have |= self.fresh_consts(t)
+        nprem = len(prem)
+        for f in self.facts:
+            if self.fresh_consts(f) <= have:
+                prem.append(f)
         cands = list(sk)
         seen = set(c.get_id() for c in cands)
-        for t in prem + [goal]:
+        for t in prem[:nprem] + [goal]:
             for ix in self.nth_indices(t):
-                if ix.get_id() not in seen and len(cands) < 12:
+                if ix.get_id() not in seen and len(cands) < 24:
                     seen.add(ix.get_id())
                     cands.append(ix)
         inst = []
@@ -459,13 +470,6 @@ class Engine:
         for t in prem + [goal]:
             self.nth_concat_facts(t, nf, nseen)
         prem += nf
-        # library-axiom instances: only those that speak about this path's symbols
-        have = set()
-        for t in prem + [goal]:
-            have |= self.fresh_consts(t)
-        for f in self.facts:
-            if self.fresh_consts(f) <= have:
-                prem.append(f)
         for kf in getattr(self, 'known', ()):
             if kf['function'] == self.cur_func and kf['kind'] == kind and kf['label'] == label:
                 # known finding = excluded region: prove the obligation outside `when`, and
@@ -632,6 +636,8 @@ class Engine:
             return V(REC, {kk: self.coerce(v.t[kk], want[kk]) for kk in v.t})
         if k == 'dict' and v.ty.kind == 'dict':
             return V(ty, v.t)
+        if k == 'any' and v.ty.kind == 'rec':
+            return V(ANY, self.json_object(v))
         if k == 'any':
             return V(ANY, box(self.concrete_list(v, STR))) if v.ty.kind == 'list' and \
                 v.ty.args[0].kind == 'bot' else V(ANY, box(v))
@@ -658,6 +664,34 @@ class Engine:
         if k == 'bytes' and v.ty.kind == 'bytearray':
             return V(ty, v.t)
         raise EngineError('cannot coerce %r to %r' % (v.ty, ty))
+
+    def json_object(self, v):
+        """A dict literal built by the code, as an abstract JSON object: a function of its member
+        values (so the same literal in a spec denotes the same object), with its members recorded
+        as facts."""
+        import zlib
+        keys = sorted(v.t)
+        vals = []
+        for kk in keys:
+            x = v.t[kk]
+            if x.ty.kind == 'rec':
+                vals.append(self.json_object(x))
+            elif x.ty.kind == 'none':
+                vals.append(PV.pnone)
+            elif x.ty.kind == 'list' and x.ty.args[0].kind == 'bot':
+                vals.append(PV.pls(z3.Empty(z3.SeqSort(z3.StringSort()))))
+            else:
+                vals.append(box(x))
+        f = z3.Function('jrec_%d' % (zlib.crc32('|'.join(keys).encode()) % 1000000),
+                        *([PV] * len(keys) + [JV]))
+        jv = f(*vals) if keys else z3.Const('jrec_empty', JV)
+        st = State()
+        st.spec = True
+        self.fact(st, j_isdict(jv))
+        for kk, val in zip(keys, vals):
+            self.fact(st, self.lib.j_haskey(jv, z3.StringVal(kk)))
+            self.fact(st, self.lib.j_get(jv, z3.StringVal(kk)) == val)
+        return PV.pj(jv)
 
     def default_term(self, sort):
         return z3.Const('dflt_' + str(sort).replace(' ', '_').replace('(', '').replace(')', ''),
@@ -1512,8 +1546,12 @@ class Engine:
         else:
             res = self.fresh(ret, 'ret_' + full.split('.')[-1], s2)
         s2 = self.add_all(s2, [self.spec_bool(cl.src, s2, penv, result=res, pre=pre)
-                               for cl in c.ensures_])
+                               for cl in c.ensures_ + [r[0] for r in c.relies_]])
         if s2 is not None:
+            for cl, reason in c.relies_:
+                note = 'rely %s.%s: %s' % (full, cl.label, reason)
+                if note not in self.dropped:
+                    self.dropped.append(note)
             yield s2, res
 
     def havoc(self, st, locs, penv, full):
@@ -1524,14 +1562,30 @@ class Engine:
                 st.ghost[g] = self.fresh(ty, 'g_' + g, st)
                 self._wrote(st, ('ghost', g))
                 continue
+            only_new = loc.startswith('new ')
+            if only_new:
+                loc = loc[4:]
             base, field = loc.rsplit('.', 1)
             if base in self.reg.schemas:
-                # any object of the class
+                # any object of the class (`new`: only objects allocated from here on)
                 fty = self.reg.field_ty(base, field)
                 for key, sort in self.field_keys((self.reg.root_of(base), field), fty):
-                    st.heap[key] = z3.Const(self.name('H_%s_%s' % key[:2]),
-                                            z3.ArraySort(z3.IntSort(), sort))
+                    old = self.heap_arr(st, key, sort)
+                    new = z3.Const(self.name('H_%s_%s' % key[:2]),
+                                   z3.ArraySort(z3.IntSort(), sort))
+                    st.heap[key] = new
                     self._wrote(st, key)
+                    if only_new:
+                        k = z3.Int(self.name('q_obj'))
+                        lim = st.ghost['$alloc_at_havoc'].t if '$alloc_at_havoc' in st.ghost \
+                            else st.ghost['$alloc'].t
+                        body = z3.Select(new, k) == z3.Select(old, k)
+                        q = z3.ForAll([k], z3.Implies(k <= lim, body))
+                        self.quants[q.get_id()] = (q, [k], [k <= lim], body)
+                        kk = q.get_id()
+                        if kk not in self._fact_ids:
+                            self._fact_ids.add(kk)
+                            self.facts.append(q)
             else:
                 obj = self.spec(base, st, penv)
                 if obj.ty.kind != 'ref':
@@ -2044,6 +2098,8 @@ class Engine:
             if loc.startswith('ghost.'):
                 allowed.add(('ghost', loc[6:]))
             elif '.' in loc:
+                if loc.startswith('new '):
+                    loc = loc[4:]
                 base, field = loc.rsplit('.', 1)
                 if base in self.reg.schemas:
                     cls = base
@@ -2311,6 +2367,8 @@ class Engine:
             if loc.startswith('ghost.'):
                 allowed_any.add(('ghost', loc[6:]))
                 continue
+            if loc.startswith('new '):
+                continue        # fresh objects are outside every frame anyway
             base, field = loc.rsplit('.', 1)
             if base in self.reg.schemas:
                 fty = self.reg.field_ty(base, field)
